@@ -68,6 +68,7 @@ _RE_STATES = re.compile(r"(\d+) states generated, (\d+) distinct states found")
 _RE_INV = re.compile(r"Invariant (\S+) is violated")
 _RE_PROP = re.compile(r"(?:Action|Temporal) propert(?:y|ies) (\S+)? ?(?:is|were) violated")
 _RE_COV = re.compile(r"^<(\w+) line \d+, col \d+ to line \d+, col \d+ of module (\w+)>: (\d+):(\d+)")
+_RE_ASSUME = re.compile(r"Assumption line (\d+), col \d+ to line \d+, col \d+ of module (\w+) is false")
 _RE_DEPTH = re.compile(r"The depth of the complete state graph search is (\d+)")
 
 
@@ -130,6 +131,9 @@ def tlc(module, cfg=None, workdir=None, workers=None, extra=(), env=None, timeou
         m = _RE_PROP.search(line)
         if m and not r.violated:
             r.violated = m.group(1) or "temporal"
+        m = _RE_ASSUME.search(line)
+        if m and not r.violated:
+            r.violated = "assumption_line_%s_of_%s" % (m.group(1), m.group(2))
         m = _RE_COV.match(line)
         if m:
             name = m.group(1)
